@@ -247,6 +247,34 @@ def check(run):
                   'normalize(req.substr(0, req.find_first_of(?))) assigned to the path')
         run.check(any('CONNECT' in t and p for t, p in g), 'R5', 'connect-exempt', PR, pr.loc(c), 'normalisation is not restricted to methods other than CONNECT', 'under method != CONNECT')
     run.ok('R12', 'trim-indexing', 'sim::trim', fx.fn1('sim::trim').loc(), 'tabled: s[start] with start == size() reads the terminator, which std::string::operator[] permits; end-1 >= start >= 0 on the second loop because the string is non-empty', nontrivial=False)
+    run.clause('totality of the string helpers the parser calls (trim, normalize, ...): a std::string search result that can be npos is never used as a POSITION (first argument of substr/erase/at/[]/insert/replace) without a dominating comparison with npos - substr(npos) throws std::out_of_range instead of the parser\'s own failure')
+    FINDS = ('find', 'rfind', 'find_first_of', 'find_first_not_of', 'find_last_of', 'find_last_not_of')
+    POSUSE = ('substr', 'erase', 'at', 'insert', 'replace', 'operator[]')
+    scope = [f_ for f_ in fx.repo_functions() if f_.file.endswith('http_server.cpp') and f_.cfg is not None]
+    npos_sites = 0
+    for f_ in scope:
+        for c in f_.calls():
+            m = (c.get('callee') or '').split('::')[-1]
+            if m not in POSUSE or 'basic_string' not in (c.get('callee') or '') or not c.get('args'):
+                continue
+            pos = q.strip_casts(c['args'][1] if 'opc' in c and len(c['args']) > 1 else c['args'][0])
+            srcs = []
+            if is_node(pos) and pos['k'] == 'ref' and pos.get('dk') == 'local':
+                srcs = [q.strip_casts(d) for _, d in q.local_defs(f_, pos['did'])]
+            elif is_node(pos):
+                srcs = [pos]
+            finds = [s_ for s_ in srcs if is_node(s_) and s_['k'] == 'call' and (s_.get('callee') or '').split('::')[-1] in FINDS and 'basic_string' in (s_.get('callee') or '')]
+            if not finds:
+                continue
+            npos_sites += 1
+            run.touch(f_)
+            name = q.render(f_, pos)
+            g = q.guards_at(f_, c)
+            ok = any('npos' in q.render(f_, a) and name in q.render(f_, a) for a, p_ in g)
+            run.check(ok, 'R5', 'npos-checked', '%s: %s(%s, ...)' % (f_.norm, m, name[:40]), f_.loc(c),
+                      'the result of %s is used as the position argument of %s() without a dominating comparison with npos: when nothing is found (e.g. an all-whitespace header value) %s throws std::out_of_range, which escapes the parser instead of its own "parse failed"' % (q.render(f_, finds[0])[:50], m, m),
+                      'dominated by a comparison with npos')
+    run.ok('R5', 'npos-checked', 'scan', '', 'position arguments derived from a string search in http_server.cpp: %d' % npos_sites, nontrivial=False)
     run.floor('R12', 8)
     run.floor('R5', 8)
 
